@@ -17,7 +17,7 @@ Requests (one reply line each; lines meant for the C++ harness only are answered
                                               XSLT current node is in document curdoc; p = the name is written with a prefix;
                                               pred = key() sits in a predicate filtering all nodes of ctxdoc (the answer is
                                               then the nodes of ctxdoc that are in their own key() result)
-  call <ctxdoc> <curdoc> <p|u> <top|pred> <name> ns <argdoc> <pattern>
+  call <ctxdoc> <curdoc> <p|u> <top|pred> <name> ns <argdoc>[+<argdoc>…] <pattern>
                                               key(name, <all nodes of argdoc matching pattern>)
   file … / anything else known to the harness → ok
   run …                                       → for every call, in order:  K=<as-written model> S=<specification> F=<E: the regenerated FunctionKey guard shapes K; P: position()/last() = 0 inside use shapes K; - neither>
@@ -29,7 +29,8 @@ namespace Driver.C15
 
 inductive CallArg where
   | str (s : String)
-  | ns (doc : Nat) (pat : List PathPat)
+  /-- all nodes matching `pat` in each of the documents `docs` (a node-set argument may span documents) -/
+  | ns (docs : List Nat) (pat : List PathPat)
 
 structure CallReq where
   doc : Nat
@@ -65,9 +66,10 @@ def showRes : Option (List CNode) → String
 
 def argOf (s : St) : CallArg → KeyArg
   | .str v => .str v
-  | .ns k pat =>
-    let d := s.doc k
-    .nodeset ((d.tree.docOrder.filter (matchPattern d pat)).map (·.value))
+  | .ns ks pat =>
+    .nodeset (ks.flatMap fun k =>
+      let d := s.doc k
+      (d.tree.docOrder.filter (matchPattern d pat)).map (·.value))
 
 /-- the environment of the transformation -/
 def envOf (posZero : Bool) (s : St) : Env String CNode Nat :=
@@ -129,7 +131,7 @@ def step (s : St) : List String → St × String
     | some d, some cur => ({ s with calls := ⟨d, cur, pu == "p", form == "pred", name, .str (unval v)⟩ :: s.calls }, "ok")
     | _, _ => (s, "bad")
   | ["call", d, cur, pu, form, name, "ns", ad, pat] =>
-    match d.toNat?, cur.toNat?, ad.toNat?, parsePattern pat with
+    match d.toNat?, cur.toNat?, (ad.splitOn "+").mapM String.toNat?, parsePattern pat with
     | some d, some cur, some ad, some p =>
       ({ s with calls := ⟨d, cur, pu == "p", form == "pred", name, .ns ad p⟩ :: s.calls }, "ok")
     | _, _, _, _ => ({ s with bad := true }, "bad call")
